@@ -2,10 +2,15 @@
 (* Model constants for Multiproc.tla: the grids of call configurations of the two tiers. *)
 EXTENDS Multiproc
 SubsetsUpTo(S,k) == {F \in SUBSET S : Cardinality(F) <= k}
-Grid(Ps,Ms,Ns,k) == {[P |-> p, Max |-> m, N |-> n, Faults |-> f, Abandon |-> a] :
-                       p \in Ps, m \in Ms, n \in Ns, f \in SubsetsUpTo(1..4,k), a \in BOOLEAN}
+(* outputs per item: "one" = a 1:1 filter; the others are generator filters yielding several / no outputs for some items *)
+Shapes == {"one","fan","sparse","mix","none"}
+OutsOf(s,n) == [x \in 1..n |-> CASE s = "one" -> 1 [] s = "fan" -> 2 [] s = "sparse" -> (x + 1) % 2 [] s = "mix" -> (x + 1) % 3 [] s = "none" -> 0]
+GridS(Ps,Ms,Ns,k,Ss) == {[P |-> p, Max |-> m, N |-> n, Outs |-> OutsOf(s,n), Faults |-> f, Abandon |-> a] :
+                       p \in Ps, m \in Ms, n \in Ns, f \in SubsetsUpTo(1..4,k), a \in BOOLEAN, s \in Ss}
+Grid(Ps,Ms,Ns,k) == GridS(Ps,Ms,Ns,k,{"one"})
+NonUnit == Shapes \ {"one"}
 Legal(c) == c.Faults \subseteq 1..c.N /\ ~(c.P = 1 /\ c.Max = 0)      \* P=1,Max=0 is the in-process path (no concurrency)
-QuickConfigs    == {c \in Grid(1..2, 0..2, 0..4, 1) : Legal(c) /\ (c.Abandon => c.Faults = {})}
-ThoroughConfigs == {c \in Grid(1..3, 0..2, 0..4, 2) : Legal(c) /\ (c.P = 3 => Cardinality(c.Faults) <= 1 /\ c.N <= 3)}
+QuickConfigs    == {c \in Grid(1..2, 0..2, 0..4, 1) \cup GridS(1..2, 0..2, 1..3, 1, NonUnit) : Legal(c) /\ (c.Abandon => c.Faults = {})}
+ThoroughConfigs == {c \in Grid(1..3, 0..2, 0..4, 2) \cup GridS(1..3, 0..2, 1..4, 1, NonUnit) : Legal(c) /\ (c.P = 3 => Cardinality(c.Faults) <= 1 /\ c.N <= 3)}
 mcMaxWorkers == 7
 =============================================================================
